@@ -14,6 +14,7 @@ CLUSTER_NOTE = ("Sequentially consistent interleavings, deviation-bounded at coa
                 "in-process transports; one shard, <=4 nodes, one fault per scenario; virtual time.")
 T_SCHED = "stateless model checking of the implementation (controlled cooperative scheduler, deviation-bounded DFS over schedules)"
 T_FSM = "explicit-state model checking of the follower controller as a protocol state machine (all event sequences up to a depth replayed on the real controller against a list model)"
+NODE_FSM = " A further stage searches the whole node as a protocol state machine across its roles (11 events: NewTerm next/same/stale, BecomeLeader current/stale, client puts and gets, appends while following, restart, crash; every sequence up to the depth on a real server with two scripted acknowledging followers): term monotone, stale requests refused, no write on a non-leader, database == fold of the node's own log, acknowledged writes readable with their value and version whenever the node leads."
 T_SEQX = "explicit-state model checking of the implementation (BFS over operation sequences with state de-duplication against a reference model)"
 
 # id -> dict(stages=[harness ids], level, text, ref, note, technique, engine)
@@ -21,25 +22,25 @@ C = {}
 def add(pid, stages, level, text, ref, note, technique, engine):
     C[pid] = dict(stages=stages, level=level, text=text, ref=ref, note=note, technique=technique, engine=engine)
 
-add('C01', ['C01'], 'exploration',
+add('C01', ['C01', 'C01N'], 'exploration',
     "Stateless exploration of a real cluster (3-4 real server.Server nodes: shards director, leader/follower controllers, WAL, Pebble on a crash-simulating filesystem; the real coordinator ShardController with a real StatusResource over the memory metadata provider; in-process transports) under the cooperative scheduler: 2 concurrent client writers (two-operation requests, with secondary-index entries) plus one fault per scenario (leader crash, crash+restart, spurious failover, swap of a follower / of the leader, swap with unreachable members, coordinator crash mid-election, lost NewTerm / BecomeLeader answers, the answer of any one coordinator RPC lost (which one is enumerated), a replication connection dropping under any one message (which one is enumerated), BecomeLeader timing out on a partitioned candidate, rolling isolation over four terms, swap + restore from snapshot + the new node leading); every schedule with <=1 (thorough <=2) non-default coarse scheduling choices; every acknowledged write must be present on every node that becomes leader later and on the final leader after healing.",
     "DESIGN.md §2.5, §3 C01", CLUSTER_NOTE, T_SCHED + " over real servers and coordinator with crash/fault injection", 'sched')
-add('C02', ['C02', 'C02S'], 'exploration',
+add('C02', ['C02', 'C02S', 'C02N'], 'exploration',
     "Stage 1: same cluster executions with clients issuing colliding puts and gets; invoke/return stamped by scheduler step; per-key linearizability decided by porcupine (unknown outcomes may take effect once or never); stale reads only from deposed leaders; no read may return a value that is absent from the final committed log. Stage 2: fine-grained schedules of writers colliding on one key on a real RF=3 leader: the state reads are served from equals the fold of the committed log, responses match their requests.",
     "DESIGN.md §3 C02", CLUSTER_NOTE, T_SCHED + " + porcupine linearizability checking of every explored history", 'sched')
 add('C03', ['C03', 'C03F'], 'exploration',
     "Stage 1: same cluster executions; at the instant a follower hands Ack(o) to a term-T stream its synced log must equal the term-T leader's log at every offset <= o (shadow logs recorded at the WAL seam); committed prefixes of all replicas are compared with the final leader at the end. Stage 2: explicit-state search of the follower as a protocol state machine (every sequence of 13 protocol events - new-term requests, appends of current / stale terms, truncation and its re-delivery, complete / interrupted / stale-term snapshot transfers, restart, crash - up to the depth, on a real follower controller): acknowledged entries stay stored with their leader's entry, the database is the fold of what the node holds.",
     "DESIGN.md §3 C03, §7", CLUSTER_NOTE, T_SCHED + " + " + T_FSM, 'sched+fsm')
-add('C04', ['C04', 'C04F'], 'exploration',
+add('C04', ['C04', 'C04F', 'C04N'], 'exploration',
     "Stage 1: stateless exploration of NewTerm(T+1) racing with in-flight client writes on a real leader controller (RF=3, acknowledging scripted followers) and with in-flight appends and pending WAL syncs on a real follower controller: every schedule with <=2 (thorough <=3) non-default scheduling choices at every lock/atomic/channel point; reported head == end of the node's log at quiescence, no ack / acknowledged write beyond the reported head, old-term writes and appends refused after the answer. Stage 2: explicit-state search of the follower as a protocol state machine (13 protocol events, see C03): no acknowledgement, append, truncation or snapshot of an older term changes a fenced node; the reported head is the end of its log.",
     "DESIGN.md §3 C04", SCHED_NOTE + " Peers are scripted; the director path is exercised by the cluster harness of C05.", T_SCHED + " + " + T_FSM, 'sched+fsm')
-add('C05', ['C05', 'C05F'], 'exploration',
+add('C05', ['C05', 'C05F', 'C05N'], 'exploration',
     "Cluster harness with election-safety monitors evaluated at every scheduling point and at every coordination RPC (scenarios as C01 plus lost BecomeLeader answer and coordinator crash right after BecomeLeader): at most one LEADER per term and at most one node told to lead a term; node terms never decrease (also across crash+restart on the crash-simulating FS); every NewTerm/BecomeLeader carries a term that is durable in the metadata store and not below any term sent before (also across coordinator crash+restart); BecomeLeader only after a fenced majority, to an ensemble member whose head is maximal among the fenced ensemble members, with followers from the stored ensemble only. Stage 2 (node side): explicit-state search of the follower as a protocol state machine (13 protocol events, see C03): the term a node has answered for never decreases across restarts, crashes and snapshot transfers.",
     "DESIGN.md §3 C05", CLUSTER_NOTE, T_SCHED + " over real servers and coordinator with crash/fault injection + " + T_FSM, 'sched+fsm')
 add('C06', ['C06', 'C06S'], 'model_checking',
     "Stage 1: differential explicit-state search: every history of write requests (puts, conditional puts, deletes, range deletes below/above the threshold, session records, sequence puts, secondary indexes) up to the depth bound is applied through six routes (live, replay on a second DB, close+reopen at every split, crash on a strict in-memory FS + replay from the stored commit offset, snapshot with several chunk sizes + replay, real leader) and the full ordered dumps must be identical. Stage 2: schedule exploration of the real cluster (client cancellation, failed BecomeLeader, rolling isolation, crash+restart, spurious failover): at the end every replica's database equals the fold of the final leader's log up to the commit offset stored in that database.",
     "DESIGN.md §3 C06, §10", "Real kv.DB / Pebble; depth and alphabet bounded; differential oracle (no hand-written expected values). " + CLUSTER_NOTE, T_SEQX + ", differential between application routes + " + T_SCHED, 'seqx+sched')
-add('C07', ['C07', 'C07S'], 'fault_enumeration',
+add('C07', ['C07', 'C07S', 'C07N'], 'fault_enumeration',
     "For histories of writes interleaved with flush-inducing events, every filesystem-operation index of the run is a crash point on Pebble's strict in-memory FS: the reopened DB must equal the fold of entries 0..c for its stored commit offset c, terms acknowledged before the crash survive, replay from c+1 reaches the uncrashed state, and commit offsets are written exactly once in order. Stage 2: schedule exploration of the real leader write pipeline (2-3 writers, WAL sync thread, cursors, ack receivers): every batch commit of the commit-offset record seen at the kv.Factory seam is previous+1 and every committed entry is applied.",
     "DESIGN.md §2.4 E3b, §3 C07", "Pebble's StrictMem semantics are the crash model; WAL side: everything appended survives or only synced entries survive.", "exhaustive crash-point enumeration over the real storage engine on a crash-simulating filesystem + " + T_SCHED, 'e3+sched')
 add('C08', ['C08'], 'exploration',
@@ -113,17 +114,18 @@ for p in props:
         "evidence_file": f"/verif/evidence/{pid}.json",
         "replay_cmd_template": f"./check {stages[0]} --replay {{path}}",
         "engine": c['engine'],
-        "level_claimed": {"category": level, "text": c['text'], "design_ref": c['ref']},
+        "level_claimed": {"category": level, "text": c['text'] + (NODE_FSM if any(x.endswith('N') for x in stages) else ''), "design_ref": c['ref']},
         "level_note": c['note'],
-        "technique": c['technique'],
+        "technique": c['technique'] + (" + explicit-state model checking of a whole storage node as a protocol state machine (all event sequences up to a depth replayed on the real server)" if any(x.endswith('N') for x in stages) else ''),
     })
-    for e in c['engine'].split('+'):
+    for e in c['engine'].split('+') + (['nfsm'] if any(x.endswith('N') for x in stages) else []):
         engines.setdefault(e, []).append(pid)
 
 ENG = {
     'seqx': ("/verif/lib/seqx", "explicit-state BFS over operation sequences of the real object with replay-from-scratch successors and canonical-state de-duplication"),
     'sched': ("/verif/lib/sched + /verif/shim + /verif/tools/vinst + /verif/lib/oxc", "source instrumenter (sync/atomic/time/chan/select/go -> shims), cooperative scheduler with virtual time, deviation-bounded stateless DFS sharded over worker processes, cluster harness of real servers and coordinator"),
     'fsm': ("/verif/lib/ffsm", "explicit-state search over follower protocol events: every event sequence up to a depth replayed from scratch on a real follower controller (under the cooperative scheduler's default schedule) against a list model"),
+    'nfsm': ("/verif/lib/nfsm", "explicit-state search over node protocol events: every event sequence up to a depth replayed from scratch on a real server (director, leader and follower controllers) with scripted peers"),
     'e3': ("/verif/h/c07, /verif/h/c10", "fault enumerators: Pebble strict-FS crash points, WAL crash/corruption images"),
     'enum': ("/verif/h/c11, /verif/h/c13, /verif/h/c19", "exhaustive enumeration of bounded input universes against reference models"),
 }
